@@ -81,6 +81,14 @@ def model_and_replay(run, name, cfg, pid, pid_key, ops_file=None, seeds=None, ti
     return recs
 
 
+def simulate(run, maxlen=16, num=20000, depth=800, alphabet="AllAlpha"):
+    """Thorough tier: random walks of the Pratt machine over the union of the alphabets with up to maxlen tokens, checked against the grammar."""
+    res = tlc.run("mc/MCPratt.tla", pratt_cfg("sim", lazy=True, maxlen=maxlen, alphabet=alphabet, report="Silent"), workers=16, simulate=num, depth=depth, timeout=1800)
+    run.tlc("M:Pratt/sim", res)
+    if res.violation:
+        run.model_violation("Pratt/sim", res)
+
+
 def trace_validate(run, name, n, seed, corrupt, pid, pid_key, ops_file=None, table="BuiltinTable", shards=16, extra_args=None):
     """Leg T: random (and corrupted) programs parsed by the real parser; TLC judges every recorded execution against the
     reference grammar applied to the token sequence the real tokenizer reported, and runs the Pratt machine alongside."""
